@@ -118,6 +118,7 @@ contract(F, "TableMethod._can_give_terms", props=["C03"],
 Bucket = Opaque("RuleBucket")
 ForestRuleKey = Tup(Int, Seq(Int), Seq(Int), Bucket, names=["parent", "children", "shifts", "bucket"], nm="ForestRuleKey")
 named_tuple("ForestRuleKey", ForestRuleKey)
+tuple_property(ForestRuleKey, "key", "comb_spec_searcher/typing.py")
 REG.classes["TableMethod"].fields.update({"_rules": List(ForestRuleKey), "_function": Obj("Function")})
 FAL = {"ForestRuleKey": ForestRuleKey}
 
@@ -168,3 +169,28 @@ contract(F, "TableMethod._compute_shift", props=["C03"], aliases=FAL,
                   "forall(lambda k: implies(0 <= k, " + _TFV.format(k="k") + " == old(" + _TFV.format(k="k") + ")))"],
          modifies=["*self._function._value", "*self._function._preimage_count._list", "all:List(Opt(Int))"],
          notes="initial shifts of a newly inserted rule from the current values")
+
+# ---------------------------------------------------------------- inserting a rule key (C03/C11): well-formedness at the call sites
+_WFKEY = ("{k}.parent >= 0 and len({k}.children) == len({k}.shifts) and "
+          "forall(lambda j: implies(0 <= j and j < len({k}.children), {k}.children[j] >= 0))")
+REG.classes["TableMethod"].fields.update({"_shifts": List(List(Opt(Int))), "_gap_size": Int, "_current_gap": Tup(Int, Int),
+                                          "_processing_queue": Deque(Int), "_rule_holding_extra_terms": Set(Int)})
+_TM_STATE = ["self._current_gap", "*self._processing_queue", "*self._rule_holding_extra_terms"]
+_TM_FUN = ["*self._function._value", "*self._function._preimage_count._list", "self._function._infinity_count",
+           "all:List(Opt(Int))"]
+contract(F, "TableMethod._correct_gap", props=["C03"], verify=False, aliases=FAL,
+         trusted_reason="gap bookkeeping of the table method: only its frame is used here (bounded stand-in c03)",
+         params={"self": Obj("TableMethod")}, modifies=_TM_STATE)
+contract(F, "TableMethod._process_queue", props=["C03"], verify=False, aliases=FAL,
+         trusted_reason="the propagation loop of the table method: only its frame is used here; its result (least fixed point) "
+                        "is the subject of the bounded stand-in c03",
+         params={"self": Obj("TableMethod")}, modifies=_TM_STATE + _TM_FUN)
+contract(F, "TableMethod.add_rule_key", props=["C03", "C11"], lenient=True, aliases=FAL,
+         params={"self": Obj("TableMethod"), "rule_key": ForestRuleKey},
+         # every child of an inserted key is paired with a shift (otherwise zip() silently drops the child)
+         requires=[_WFKEY.format(k="rule_key")],
+         ensures=["len(self._rules) == old(len(self._rules)) + 1", "self._rules[len(self._rules) - 1] == rule_key",
+                  "forall(lambda i: implies(0 <= i and i < old(len(self._rules)), self._rules[i] == old(self._rules[i])))"],
+         modifies=["*self._rules", "*self._shifts", "self._gap_size", "all:List(Int)"] + _TM_STATE + _TM_FUN,
+         notes="the key is stored as given; its initial shifts are computed from well-formed data (call-site obligations of "
+               "_compute_shift)")
